@@ -46,6 +46,51 @@ def impl_fn(mf, line_lo, line_hi, fname):
     return sorted(out)
 
 
+def snapshot_agreement(ctx, rp, enums, masks, only=None):
+    """numbers, names, aliases and mask constants of the spirv crate against the pinned grammar (also run by C09 for `Op`, whose alias
+    constants are what `CoreInstructionTable::get` is called with)"""
+    # ---------------- agreement with the pinned grammar (stand-in for the Khronos JSON): numbers, names, aliases, mask constants
+    snap = json.load(open(os.path.join(VERIF, "reference", "snapshot.json")))["spirv"]
+    for name in sorted(set(enums) | set(snap["enums"])):
+        if only and name not in only:
+            continue
+        cur, old = enums.get(name), snap["enums"].get(name)
+        if cur is None or old is None:
+            if cur is None:
+                real = rp.ask("from_u32 %s 0" % name)
+                if "error" in real:
+                    ctx.ob("snapshot/enum/%s" % name, False, "enum missing")
+                    ctx.violation("snapshot/enum-presence/%s" % name, "enumeration %s of the pinned grammar is missing from the spirv crate" % name, {"cmd": "from_u32 %s 0" % name, "real": real})
+                else:
+                    ctx.ob("snapshot/enum/%s" % name, None, "the token reader does not find enum %s but the compiled crate has it" % name)
+            else:
+                ctx.ob("snapshot/enum/%s" % name, None, "enum %s is not in the pinned grammar snapshot (a new declaration: outside what the snapshot can judge)" % name)
+            continue
+        a = {n: v for n, v in cur["variants"]}
+        b = {n: v for n, v in old["variants"]}
+        al_a = {x: a.get(y) for x, y in cur["aliases"]}
+        al_b = {x: b.get(y) for x, y in old["aliases"]}
+        diffs = [(n, a.get(n), b.get(n)) for n in sorted(set(a) | set(b)) if a.get(n) != b.get(n)]
+        diffs += [("alias " + n, al_a.get(n), al_b.get(n)) for n in sorted(set(al_a) | set(al_b)) if al_a.get(n) != al_b.get(n)]
+        ctx.ob("snapshot/enum/%s" % name, not diffs, str(diffs[:4]) if diffs else None)
+        for n, x, y in diffs[:6]:
+            probe = x if isinstance(x, int) else (y if isinstance(y, int) else 0)
+            real = rp.ask("from_u32 %s %d" % (name, probe))
+            ctx.violation("snapshot/enum/%s/%s" % (name, n.replace(" ", "-")), "%s::%s = %s here, %s in the pinned grammar" % (name, n, x, y),
+                          {"cmd": "from_u32 %s %d" % (name, probe), "real": real})
+    for name in sorted(set(masks) | set(snap["masks"])):
+        if only:
+            continue
+        a = dict(masks[name]["consts"]) if name in masks else {}
+        b = dict(snap["masks"].get(name, []))
+        diffs = [(n, a.get(n), b.get(n)) for n in sorted(set(a) | set(b)) if a.get(n) != b.get(n)]
+        ctx.ob("snapshot/mask/%s" % name, not diffs, str(diffs[:4]) if diffs else None)
+        for n, x, y in diffs[:6]:
+            real = rp.ask("from_bits %s %d" % (name, x if isinstance(x, int) else (y or 0)))
+            ctx.violation("snapshot/mask/%s/%s" % (name, n), "%s::%s = %s here, %s in the pinned grammar" % (name, n, x, y),
+                          {"cmd": "from_bits %s %d" % (name, x if isinstance(x, int) else (y or 0)), "real": real})
+
+
 def run(ctx):
     q = Q(ctx)
     enums, masks = tables.spirv_decls()
@@ -266,42 +311,7 @@ def run(ctx):
                             ctx.ob("%s/from_str/declared-accepted" % name, None, "model %r does not reproduce" % w)
                     else:
                         ctx.ob("%s/from_str/declared-accepted" % name, st == "unsat" or None)
-    # ---------------- agreement with the pinned grammar (stand-in for the Khronos JSON): numbers, names, aliases, mask constants
-    snap = json.load(open(os.path.join(VERIF, "reference", "snapshot.json")))["spirv"]
-    for name in sorted(set(enums) | set(snap["enums"])):
-        cur, old = enums.get(name), snap["enums"].get(name)
-        if cur is None or old is None:
-            if cur is None:
-                real = rp.ask("from_u32 %s 0" % name)
-                if "error" in real:
-                    ctx.ob("snapshot/enum/%s" % name, False, "enum missing")
-                    ctx.violation("snapshot/enum-presence/%s" % name, "enumeration %s of the pinned grammar is missing from the spirv crate" % name, {"cmd": "from_u32 %s 0" % name, "real": real})
-                else:
-                    ctx.ob("snapshot/enum/%s" % name, None, "the token reader does not find enum %s but the compiled crate has it" % name)
-            else:
-                ctx.ob("snapshot/enum/%s" % name, None, "enum %s is not in the pinned grammar snapshot (a new declaration: outside what the snapshot can judge)" % name)
-            continue
-        a = {n: v for n, v in cur["variants"]}
-        b = {n: v for n, v in old["variants"]}
-        al_a = {x: a.get(y) for x, y in cur["aliases"]}
-        al_b = {x: b.get(y) for x, y in old["aliases"]}
-        diffs = [(n, a.get(n), b.get(n)) for n in sorted(set(a) | set(b)) if a.get(n) != b.get(n)]
-        diffs += [("alias " + n, al_a.get(n), al_b.get(n)) for n in sorted(set(al_a) | set(al_b)) if al_a.get(n) != al_b.get(n)]
-        ctx.ob("snapshot/enum/%s" % name, not diffs, str(diffs[:4]) if diffs else None)
-        for n, x, y in diffs[:6]:
-            probe = x if isinstance(x, int) else (y if isinstance(y, int) else 0)
-            real = rp.ask("from_u32 %s %d" % (name, probe))
-            ctx.violation("snapshot/enum/%s/%s" % (name, n.replace(" ", "-")), "%s::%s = %s here, %s in the pinned grammar" % (name, n, x, y),
-                          {"cmd": "from_u32 %s %d" % (name, probe), "real": real})
-    for name in sorted(set(masks) | set(snap["masks"])):
-        a = dict(masks[name]["consts"]) if name in masks else {}
-        b = dict(snap["masks"].get(name, []))
-        diffs = [(n, a.get(n), b.get(n)) for n in sorted(set(a) | set(b)) if a.get(n) != b.get(n)]
-        ctx.ob("snapshot/mask/%s" % name, not diffs, str(diffs[:4]) if diffs else None)
-        for n, x, y in diffs[:6]:
-            real = rp.ask("from_bits %s %d" % (name, x if isinstance(x, int) else (y or 0)))
-            ctx.violation("snapshot/mask/%s/%s" % (name, n), "%s::%s = %s here, %s in the pinned grammar" % (name, n, x, y),
-                          {"cmd": "from_bits %s %d" % (name, x if isinstance(x, int) else (y or 0)), "real": real})
+    snapshot_agreement(ctx, rp, enums, masks)
     rp.close()
     # ---------------- masks: from_bits accepts n iff all set bits are declared (compiled code, CBMC over all 2^32 numbers)
     import kani
